@@ -170,7 +170,11 @@ const (
 	codeVal = 1002
 )
 
-func table(which int, altCodes bool) *jsonrpc.Errors {
+// extraCodes: on the receiving side PtrErr is additionally registered under a second, newer
+// code after the one the sender uses; both registrations stay valid.
+var extraCodes bool
+
+func table(which int, altCodes bool, extra bool) *jsonrpc.Errors {
 	// which: 0 none, 1 full, 2 without PtrErr
 	if which == 0 {
 		return nil
@@ -182,6 +186,9 @@ func table(which int, altCodes bool) *jsonrpc.Errors {
 	}
 	if which == 1 {
 		e.Register(cp, new(*PtrErr))
+		if extra {
+			e.Register(cp+5000, new(*PtrErr))
+		}
 	}
 	e.Register(cv, new(ValErr))
 	e.Register(codecCode, new(*CodecErr))
@@ -193,17 +200,18 @@ func table(which int, altCodes bool) *jsonrpc.Errors {
 func HarnessErrors() {
 	h := &H{kind: verif.Choice("kind", 10), msg: verif.String("msg", 3), n: verif.Int("n")}
 	verif.Assume(h.n >= -(1<<53) && h.n <= 1<<53)
+	extraCodes = h.kind == 2 && verif.Bool("type_registered_under_two_codes")
 	srvTab := verif.Choice("server_table", 3)
 	cliTab := verif.Choice("client_table", 3)
 	disjoint := verif.Bool("disjoint_codes")
 	var sopts []jsonrpc.ServerOption
-	if t := table(srvTab, false); t != nil {
+	if t := table(srvTab, false, false); t != nil {
 		sopts = append(sopts, jsonrpc.WithServerErrors(*t))
 	}
 	srv := jsonrpc.NewServer(sopts...)
 	srv.Register("E", h)
 	var copts []jsonrpc.Option
-	if t := table(cliTab, disjoint); t != nil {
+	if t := table(cliTab, disjoint, extraCodes); t != nil {
 		copts = append(copts, jsonrpc.WithErrors(*t))
 	}
 	var c C
